@@ -22,8 +22,8 @@ CHECKS = {
         technique='explicit enumeration of executions (input product + 1 environment deviation), status-fold reference model',
         design='3/C02'),
     'C03': dict(
-        text='Every database name (gss-* instantiated) and unknown names x position x neighbour context x role x text/JSON, plus --lookup: notes '
-             'must be a function of (category, name, documented context) and equal across views.',
+        text='Every database name (gss-* instantiated) and unknown names x position x neighbour context x role x text/JSON, plus --lookup (single names; every ordered pair and triple over names of all categories): notes '
+             'must be a function of (category, name, documented context) and equal across views; histories, deliveries, decorated names, group-exchange methods beside each other.',
         note='Measured sizes held fixed; Terrapin context from refmodels/terrapin.py.',
         technique='explicit enumeration of executions of the real CLI, differential oracle across views',
         design='3/C03'),
@@ -65,7 +65,8 @@ CHECKS = {
         text='For each valid transcript archetype every (connection, message, fault) triple of the fault menu is executed against the real CLI '
              '(truncation at byte offsets, close, stall, reset, garbage, every length field x5, wrong type, debug, duplicate, split, 1-byte '
              'segments, refuse/timeout); thorough adds all pairs with a second message-level fault. Oracle: terminates within op/time bound, '
-             'documented status, complete report iff initial handshake well-formed.',
+             'documented status, complete report iff initial handshake well-formed. Also: identification-string contents, long runs of peer-chosen text under a CPU watchdog, '
+             'reply mutations, the connection-rate phase meeting every behaviour of the C19 rate family.',
         note='Virtual clock and op budget stand in for wall time, a process-CPU-time watchdog catches computations that never return to the environment; random DH exponent pinned; environment model mc/vnet.py + mc/peer.py.',
         technique='deviation-bounded exhaustive fault enumeration (stateless exploration of the implementation under a fault injector)',
         design='3/C09'),
@@ -130,7 +131,8 @@ CHECKS = {
         design='3/C18'),
     'C19': dict(
         text='Connection-log monitor over the C09 fault space, all rate-phase behaviours (banner, MaxStartups, silent, close, refuse, async refuse, '
-             'timeout) x modes x kex sets, and ordinary option sets: connection count, concurrency, where key-exchange requests appear, closure at exit.',
+             'timeout) x modes x kex sets, servers answering patterns of connections with a notice instead of a banner, and ordinary option sets: connection count (overall and per phase: '
+             'one per host-key type, no type twice), concurrency, where key-exchange requests appear (one per connection), closure at exit.',
         note='Virtual clock model of select(); sockets collected by the interpreter count as closed.',
         technique='deviation-bounded exhaustive fault enumeration with a monitor on the environment log',
         design='3/C19'),
